@@ -6,6 +6,14 @@ calculate_cartesian; lower-id-to-the-left) and Properties/C04.lean.
 Tie: estimate_u_using_random_sampling (full sample: exactness; small sample + seed: reproducibility),
 estimate_m_from_label_column, estimate_m_from_pairwise_labels, estimate_probability_two_random_records_match on generated
 data vs the compiled model; brute-force recount oracle on the real output; translation validation of the generated arithmetic.
+
+Input families added by the generator audit (see count_families for the evidence counters): string ids, non-default id column names,
+frames with shuffled columns, empty / one-row tables, table aliases reversed or left to Splink, a dedupe frame carrying a
+source_dataset column, '' values and all-NULL columns, settings that must not matter, an earlier (accepted or rejected) estimator call
+on the same linker, max_pairs on both sides of 1e4 and as float, unseeded small samples (oracle: the frequency of SOME sample),
+label column = a comparison column, labels tables with extra / shuffled columns, absent records, passed as SplinkDataFrame, and
+re-registered under the same name; deterministic rules as creators / dicts / one bare rule, duplicated, reused across dialects,
+max_rows_limit, recall a hair below the boundary and outside (0, 1].
 """
 from __future__ import annotations
 
@@ -23,29 +31,54 @@ NOT_OBS = "level not observed in training dataset"
 
 
 # --------------------------------------------------------------------------- generation
+STR_IDS = [str(j) for j in range(1, 13)] + ["i0", "i1", "A1"]  # "10" < "9" as strings
+LABELS = ["e1", "e2", "e3", "e4", "e5"]
+OUT_OF_RANGE_RECALLS = [0, 0.0, -0.0, -0.5, 1.0000001, 2]
+ALL_PAIRS_RULE = "l.c = r.c OR l.c <> r.c OR l.c IS NULL OR r.c IS NULL"  # TRUE for every pair
+
+
 def gen_case(rng: random.Random, kind=None, engine=None):
     engine = engine or rng.choice(["duckdb", "duckdb", "sqlite"])
     k = rng.choice([1, 1, 2, 3])
     link_type = "dedupe_only" if k == 1 else rng.choice(["link_only", "link_and_dedupe"])
     null_rate = rng.choice([0.0, 0.2, 0.4])
+    # one column that is NULL in (nearly) every record: every pair is in the null level, no level is observed
+    null_rates = {c: null_rate for c in "abc"}
+    if rng.random() < 0.1:
+        null_rates[rng.choice("abc")] = rng.choice([1.0, 0.9])
+    empty_str = rng.random() < 0.15  # '' is a value, not NULL: '' = '' is TRUE
+    str_dom_a, str_dom_b = c02.STR_DOM[:5] + ([""] if empty_str else []), c02.STR_DOM[:4] + ([""] if empty_str else [])
+    lab_dom = LABELS + ([""] if rng.random() < 0.15 else [])
     tables = []
     uid = 0
     # ids unique over all tables, or restarting in every table (records of different datasets then share unique ids)
     ids = "global" if k == 1 or rng.random() < 0.5 else "per_table"
+    # integer ids, or string ids (whose order is not the numeric one)
+    id_type = "int" if rng.random() < 0.7 else "str"
     # several input frames, or ONE pre-concatenated frame that carries the source_dataset column itself
     layout = "tables" if k == 1 or rng.random() < 0.65 else "concat"
-    for _ in range(k):
+    sizes = [rng.randint(2 if k == 1 else 1, 7) for _ in range(k)]
+    if k >= 2 and rng.random() < 0.08:
+        sizes[rng.randrange(k)] = 0  # an empty input table
+        if sum(1 for n in sizes if n) < 2 and link_type == "link_only":
+            sizes = [max(n, 1) for n in sizes]
+        if sum(sizes) < 2:
+            sizes[0] = 2
+    pool = list(STR_IDS)
+    rng.shuffle(pool)
+    for n in sizes:
         rows = []
         if ids == "per_table":
             uid = 0
-        for _ in range(rng.randint(2, 7)):
+            rng.shuffle(pool)
+        for _ in range(n):
             uid += 1
             rows.append({
-                "unique_id": uid,
-                "a": None if rng.random() < null_rate else rng.choice(c02.STR_DOM[:5]),
-                "b": None if rng.random() < null_rate else rng.choice(c02.STR_DOM[:4]),
-                "c": None if rng.random() < null_rate else rng.choice(c02.INT_DOM),
-                "lab": None if rng.random() < 0.25 else rng.choice(["e1", "e2", "e3", "e4", "e5"]),
+                "unique_id": uid if id_type == "int" else pool[(uid - 1) % len(pool)] + ("" if uid <= len(pool) else f"_{uid}"),
+                "a": None if rng.random() < null_rates["a"] else rng.choice(str_dom_a),
+                "b": None if rng.random() < null_rates["b"] else rng.choice(str_dom_b),
+                "c": None if rng.random() < null_rates["c"] else rng.choice(c02.INT_DOM),
+                "lab": None if rng.random() < 0.25 else rng.choice(lab_dom),
             })
         tables.append(rows)
     comps = []
@@ -59,12 +92,39 @@ def gen_case(rng: random.Random, kind=None, engine=None):
             if l["kind"] != "null" and rng.random() < 0.08:
                 l["fix_m"] = True
         comps.append(cc)
-    kind = kind or rng.choice(["u_full", "u_full", "u_seeded", "m_label_col", "m_pairwise", "prior", "prior"])
+    kind = kind or rng.choice(["u_full", "u_full", "u_seeded", "u_sampled", "m_label_col", "m_pairwise", "m_pairwise", "prior", "prior"])
     case = {"engine": engine, "link_type": link_type, "tables": tables, "comparisons": comps, "kind": kind, "prior": 0.1,
-            "shuffle": rng.randrange(1 << 30), "tag": "random", "ids": ids, "layout": layout}
+            "shuffle": rng.randrange(1 << 30), "tag": "random", "ids": ids, "layout": layout, "id_type": id_type}
+    # non-default names of the id columns (settings unique_id_column_name / source_dataset_column_name)
+    case["uid_col"] = "unique_id" if rng.random() < 0.75 else "uid"
+    case["sd_col"] = "source_dataset" if k == 1 or rng.random() >= (0.35 if layout == "concat" else 0.05) else "src"
+    # the names of the input tables: given in sorted order, given in another order than the alphabetical one, or left to Splink
+    case["aliases"] = "sorted" if k == 1 else rng.choice(["sorted", "sorted", "reversed", "default"])
+    # a single frame to dedupe that happens to carry a source_dataset column (e.g. an earlier concatenation): a plain column
+    case["extra_sd_column"] = k == 1 and rng.random() < 0.15
+    # every input frame lists the same columns in its own order
+    case["col_order"] = "given" if rng.random() < 0.6 else "shuffled"
+    # settings that must not matter to the direct estimators
+    opts = {}
+    if rng.random() < 0.4:
+        if rng.random() < 0.5:
+            opts["retain_matching_columns"] = rng.random() < 0.5
+        if rng.random() < 0.5:
+            opts["retain_intermediate_calculation_columns"] = rng.random() < 0.5
+        if rng.random() < 0.4:
+            opts["additional_columns_to_retain"] = ["lab"]
+        if rng.random() < 0.5:
+            opts["blocking_rules_to_generate_predictions"] = [bg.sql(bg.gen_rule(rng, depth=1, asym_ok=False)) for _ in range(rng.randint(1, 2))]
+    case["opts"] = opts
+    # an earlier call of ANOTHER estimator on the same linker (accepted or failed) must not change this one's result
+    if rng.random() < 0.25:
+        fam = kind[0]
+        case["pre"] = rng.choice({"u": ["m_label", "prior_ok", "prior_rejected"], "m": ["u", "prior_ok", "prior_rejected"], "p": ["u", "m_label", "prior_rejected"]}[fam])
     n_adm = len(admissible_pairs(case))
     if kind == "u_full":
-        case["max_pairs"] = rng.choice([n_adm, n_adm, n_adm + 1, 10 * n_adm + 5, 1e6, 2e4])
+        # at / just above the number of admissible pairs, int and float, the documented large values, and both sides of the 1e4
+        # switch to the salted cartesian join
+        case["max_pairs"] = rng.choice([n_adm, n_adm, float(n_adm), n_adm + 1, 10 * n_adm + 5, 1e6, 2e4, 1e4, 10001, 1e9])
         if case["max_pairs"] == 0:
             case["max_pairs"] = 1
         case["seed"] = rng.choice([None, None, 1, 0])
@@ -72,31 +132,74 @@ def gen_case(rng: random.Random, kind=None, engine=None):
         case["engine"] = "duckdb"
         case["max_pairs"] = max(1, n_adm // 2)
         case["seed"] = rng.choice([0, 1, 5, 42])
+    elif kind == "u_sampled":
+        # a sample below the number of admissible pairs and no seed (both engines): the estimate is some sample's frequency
+        case["max_pairs"] = rng.choice([max(1, n_adm // 2), max(1, n_adm - 1), max(1, (2 * n_adm) // 3), 1, 3])
+        case["seed"] = None
+    elif kind == "m_label_col":
+        case["label_col"] = rng.choice(["lab", "lab", "lab", "a", "c"])
     elif kind == "m_pairwise":
         recs = records(case)
-        labels = []
-        for _ in range(rng.randint(1, 8)):
-            x, y = rng.sample(recs, 2) if len(recs) >= 2 else (recs[0], recs[0])
-            if link_type == "link_only" and x["source_dataset"] == y["source_dataset"]:
-                continue
-            labels.append([[x["source_dataset"], x["unique_id"]], [y["source_dataset"], y["unique_id"]]])
-            if rng.random() < 0.15:
-                labels.append(labels[-1])  # duplicate label row
-            if rng.random() < 0.15:
-                labels.append([labels[-1][1], labels[-1][0]])  # same pair, other orientation
-        case["labels"] = labels
+
+        def gen_labels():
+            labels = []
+            for _ in range(rng.randint(1, 8)):
+                x, y = rng.sample(recs, 2) if len(recs) >= 2 else (recs[0], recs[0])
+                if link_type == "link_only" and x["source_dataset"] == y["source_dataset"]:
+                    continue
+                labels.append([[x["source_dataset"], x["unique_id"]], [y["source_dataset"], y["unique_id"]]])
+                if rng.random() < 0.15:
+                    labels.append(labels[-1])  # duplicate label row
+                if rng.random() < 0.15:
+                    labels.append([labels[-1][1], labels[-1][0]])  # same pair, other orientation
+            return labels
+
+        case["labels"] = gen_labels()
+        if rng.random() < 0.2:
+            # label rows about records that are not in the input (dropped by the join), at any position
+            ghost = 99 if id_type == "int" else "ghost"
+            for _ in range(rng.randint(1, 2)):
+                x = rng.choice(recs)
+                row = [[x["source_dataset"], x["unique_id"]], [rng.choice(aliases_of(case)), ghost]]
+                case["labels"].insert(rng.randint(0, len(case["labels"])), row if rng.random() < 0.5 else row[::-1])
+        # the labels table: extra columns, its own column order, handed over by name or as the SplinkDataFrame
+        case["labels_extra_cols"] = rng.random() < 0.3
+        case["labels_col_order"] = "given" if rng.random() < 0.6 else "shuffled"
+        case["labels_as"] = rng.choice(["name", "name", "sdf"])
+        if rng.random() < 0.25:
+            # the documented idiom register_table(labels, name, overwrite=True), used a second time with new labels
+            case["labels_first"] = gen_labels()
     elif kind == "prior":
         rules = []
         for _ in range(rng.randint(1, 3)):
-            rules.append(bg.gen_rule(rng, depth=1, asym_ok=False))
+            rules.append(bg.gen_rule(rng, depth=rng.choice([1, 1, 2]), asym_ok=False))
+        if rng.random() < 0.2:
+            rules.insert(rng.randint(0, len(rules)), rng.choice(rules))  # the same rule twice in the list
         case["rules"] = rules
-        case["recall"] = rng.choice([1.0, 0.9, 0.5, 0.1, 0.01, "boundary"])
+        case["recall"] = rng.choice([1.0, 1, 0.9, 0.5, 0.1, 0.01, "boundary", "boundary", "below_boundary", "below_boundary", "out_of_range"])
+        if case["recall"] == "out_of_range":
+            case["recall_value"] = rng.choice(OUT_OF_RANGE_RECALLS)
+        # how the rules are handed over: SQL strings, creator objects, dicts, or ONE bare rule instead of a list
+        case["rule_form"] = rng.choice(["sql", "sql", "creator", "creator", "dict", "mixed"])
+        if len(rules) == 1 and rng.random() < 0.5:
+            case["rule_form"] = rng.choice(["single_sql", "single_creator"])
+        # the same creator objects used for another dialect first
+        case["reuse_creators"] = case["rule_form"] in ("creator", "mixed", "single_creator") and rng.random() < 0.3
+        tot = sum(sizes)
+        case["max_rows_limit"] = rng.choice([None, None, None, tot * tot + 1, int(1e12)])
     return case
 
 
-def records(case):
+def aliases_of(case):
     k = len(case["tables"])
-    return bg.concat_records(case["tables"], ALIASES[:k])
+    how = case.get("aliases", "sorted")
+    if how == "default" and k > 1 and case.get("layout") != "concat":
+        return [f"__splink__input_table_{i}" for i in range(k)]  # what Linker names tables given without input_table_aliases
+    return ALIASES[:k][::-1] if how == "reversed" else ALIASES[:k]
+
+
+def records(case):
+    return bg.concat_records(case["tables"], aliases_of(case))
 
 
 def admissible_pairs(case):
@@ -124,10 +227,28 @@ def cvvs(comp):
 
 
 # --------------------------------------------------------------------------- real code
+def _frame(case, rows, with_sd, rng):
+    from harness import impl
+
+    uid_col, sd_col = case.get("uid_col", "unique_id"), case.get("sd_col", "source_dataset")
+    with_sd = with_sd or bool(case.get("extra_sd_column"))
+    types = {uid_col: case.get("id_type", "int")} | ({sd_col: "str"} if with_sd else {}) | {"a": "str", "b": "str", "c": "int", "lab": "str"}
+    if case.get("col_order") == "shuffled":
+        keys = list(types)
+        rng.shuffle(keys)
+        types = {c: types[c] for c in keys}
+    out = []
+    for r in rows:
+        d = {c: r[c] for c in ("a", "b", "c", "lab")}
+        d[uid_col] = r["unique_id"]
+        if with_sd:
+            d[sd_col] = r["source_dataset"] if "source_dataset" in r else ALIASES[len(out) % 3]
+        out.append(d)
+    return impl.typed_frame(out, types)
+
+
 def build_linker(case, api):
     from splink import Linker
-
-    from harness import impl
 
     comps = []
     for ci, c in enumerate(case["comparisons"]):
@@ -152,21 +273,52 @@ def build_linker(case, api):
         comps.append({"output_column_name": f"{c['col']}{ci}", "comparison_levels": lv})
     settings = {"link_type": case["link_type"], "comparisons": comps, "blocking_rules_to_generate_predictions": [],
                 "probability_two_random_records_match": case["prior"]}
+    settings.update(case.get("opts") or {})
+    if case.get("uid_col", "unique_id") != "unique_id":
+        settings["unique_id_column_name"] = case["uid_col"]
+    if case.get("sd_col", "source_dataset") != "source_dataset":
+        settings["source_dataset_column_name"] = case["sd_col"]
     rng = random.Random(case.get("shuffle", 0))
     frames = []
     for rows in case["tables"]:
         rows = list(rows)
         rng.shuffle(rows)
-        frames.append(impl.typed_frame(rows, {"unique_id": "int", "a": "str", "b": "str", "c": "int", "lab": "str"}))
+        frames.append(_frame(case, rows, False, rng))
     k = len(frames)
     if k == 1:
         return Linker(frames[0], settings, api)
     if case.get("layout") == "concat":
-        rows = [dict(r, source_dataset=al) for al, t in zip(ALIASES, case["tables"]) for r in t]
+        rows = [dict(r, source_dataset=al) for al, t in zip(aliases_of(case), case["tables"]) for r in t]
         rng.shuffle(rows)
-        one = impl.typed_frame(rows, {"unique_id": "int", "source_dataset": "str", "a": "str", "b": "str", "c": "int", "lab": "str"})
-        return Linker(one, settings, api)
-    return Linker(frames, settings, api, input_table_aliases=ALIASES[:k])
+        return Linker(_frame(case, rows, True, rng), settings, api)
+    if case.get("aliases") == "default":
+        return Linker(frames, settings, api)
+    return Linker(frames, settings, api, input_table_aliases=aliases_of(case))
+
+
+def run_pre(case, linker):
+    """An earlier estimator call on the same linker (sequence family); a rejected call is swallowed like a user would."""
+    pre = case.get("pre")
+    if pre == "u":
+        linker.training.estimate_u_using_random_sampling(max_pairs=1e5)
+    elif pre == "m_label":
+        linker.training.estimate_m_from_label_column("lab")
+    elif pre == "prior_ok":
+        linker.training.estimate_probability_two_random_records_match(["l.a = r.a"], recall=1.0)
+    elif pre == "prior_rejected":
+        try:
+            linker.training.estimate_probability_two_random_records_match([ALL_PAIRS_RULE], recall=0.5)
+        except ValueError as e:
+            if "recall" not in str(e):
+                raise
+    elif pre is not None:
+        raise ValueError(pre)
+
+
+def prepared_linker(case, api):
+    linker = build_linker(case, api)
+    run_pre(case, linker)
+    return linker
 
 
 def dump_levels(linker, which):
@@ -183,13 +335,89 @@ def dump_levels(linker, which):
     return out
 
 
+def creator_of(rule):
+    """The rule as a user of the blocking rule library would build it (block_on / And / Or / Not, CustomRule otherwise)."""
+    from splink import block_on
+    from splink.internals.blocking_rule_library import And, CustomRule, Not, Or
+
+    def expr(x):
+        if x[0] == "eq" and x[1] == x[2]:
+            return x[1]
+        if x[0] == "sub":
+            return f"substr({x[1]}, 1, 1)"
+        return None
+
+    k = rule[0]
+    if expr(rule) is not None:
+        return block_on(expr(rule))
+    if k == "and" and expr(rule[1]) is not None and expr(rule[2]) is not None and expr(rule[1]) != expr(rule[2]):
+        return block_on(expr(rule[1]), expr(rule[2]))
+    if k == "and":
+        return And(creator_of(rule[1]), creator_of(rule[2]))
+    if k == "or":
+        return Or(creator_of(rule[1]), creator_of(rule[2]))
+    if k == "not":
+        return Not(creator_of(rule[1]))
+    return CustomRule(bg.sql(rule))
+
+
+def rules_arg(case):
+    form = case.get("rule_form", "sql")
+    out = []
+    for i, r in enumerate(case["rules"]):
+        f = form if form != "mixed" else ["sql", "creator", "dict"][i % 3]
+        if f in ("sql", "single_sql"):
+            out.append(bg.sql(r) if i % 2 == 0 else bg.sql_top(r))
+        elif f in ("creator", "single_creator"):
+            out.append(creator_of(r))
+        else:
+            out.append({"blocking_rule": bg.sql(r)})
+    return out[0] if form.startswith("single") else out
+
+
+def recall_of(case):
+    rc = case["recall"]
+    if rc == "boundary":
+        return boundary_recall(case)
+    if rc == "below_boundary":
+        b = boundary_recall(case)
+        return b * (1 - 1e-6) if matched_pairs(case) else b
+    if rc == "out_of_range":
+        return case["recall_value"]
+    return rc
+
+
+def label_rows(case, labels):
+    multi = len(case["tables"]) > 1
+    uid_col, sd_col = case.get("uid_col", "unique_id"), case.get("sd_col", "source_dataset")
+    rows = []
+    for i, ((sl, ul), (sr, ur)) in enumerate(labels):
+        d = {f"{uid_col}_l": ul, f"{uid_col}_r": ur}
+        if multi:
+            d[f"{sd_col}_l"], d[f"{sd_col}_r"] = sl, sr
+        if case.get("labels_extra_cols"):
+            d["clerical_match_score"], d["note"] = [1.0, 0.9, 0.2][i % 3], f"n{i}"
+        rows.append(d)
+    idt = case.get("id_type", "int")
+    types = ({f"{sd_col}_l": "str", f"{sd_col}_r": "str"} if multi else {}) | {f"{uid_col}_l": idt, f"{uid_col}_r": idt}
+    if case.get("labels_extra_cols"):
+        types |= {"clerical_match_score": "float", "note": "str"}
+    if case.get("labels_col_order") == "shuffled":
+        keys = list(types)
+        random.Random(case.get("shuffle", 0) + 1).shuffle(keys)
+        types = {c: types[c] for c in keys}
+    from harness import impl
+
+    return impl.typed_frame(rows, types)
+
+
 def run_impl(case: dict) -> dict:
     from harness import impl
 
     api = impl.make_api(case["engine"], threads=2)
-    linker = build_linker(case, api)
+    linker = prepared_linker(case, api)
     kind = case["kind"]
-    if kind in ("u_full", "u_seeded"):
+    if kind in ("u_full", "u_seeded", "u_sampled"):
         linker.training.estimate_u_using_random_sampling(max_pairs=case["max_pairs"], seed=case["seed"])
         out = {"levels": dump_levels(linker, "u")}
         if kind == "u_seeded":
@@ -197,35 +425,32 @@ def run_impl(case: dict) -> dict:
             # a fraction of the runs only), with different thread counts, and keep the first run that differs
             for threads in (2, 4, 1, 3):
                 api2 = impl.make_api(case["engine"], threads=threads)
-                l2 = build_linker(case, api2)
+                l2 = prepared_linker(case, api2)
                 l2.training.estimate_u_using_random_sampling(max_pairs=case["max_pairs"], seed=case["seed"])
                 out["levels_second_run"] = dump_levels(l2, "u")
                 if out["levels_second_run"] != out["levels"]:
                     break
         return out
     if kind == "m_label_col":
-        linker.training.estimate_m_from_label_column("lab")
+        linker.training.estimate_m_from_label_column(case.get("label_col", "lab"))
         return {"levels": dump_levels(linker, "m")}
     if kind == "m_pairwise":
-        multi = len(case["tables"]) > 1
-        rows = []
-        for (sl, ul), (sr, ur) in case["labels"]:
-            d = {"unique_id_l": ul, "unique_id_r": ur}
-            if multi:
-                d["source_dataset_l"], d["source_dataset_r"] = sl, sr
-            rows.append(d)
-        types = ({"source_dataset_l": "str", "source_dataset_r": "str"} if multi else {}) | {"unique_id_l": "int", "unique_id_r": "int"}
-        df = impl.typed_frame(rows, types)
-        linker.table_management.register_table(df, "labels_tbl", overwrite=True)
-        linker.training.estimate_m_from_pairwise_labels("labels_tbl")
+        for labels in ([case["labels_first"]] if "labels_first" in case else []) + [case["labels"]]:
+            sdf = linker.table_management.register_table(label_rows(case, labels), "labels_tbl", overwrite=True)
+            linker.training.estimate_m_from_pairwise_labels(sdf if case.get("labels_as") == "sdf" else "labels_tbl")
         return {"levels": dump_levels(linker, "m")}
     if kind == "prior":
-        rules = [bg.sql(r) for r in case["rules"]]
-        recall = case["recall"]
-        if recall == "boundary":
-            recall = boundary_recall(case)
+        recall = recall_of(case)
+        if case.get("reuse_creators"):
+            # the very same rule objects serve a linker of the other dialect first
+            rules = rules_arg(case)
+            other = prepared_linker(dict(case, pre=None), impl.make_api("sqlite" if case["engine"] == "duckdb" else "duckdb", threads=2))
+            other.training.estimate_probability_two_random_records_match(rules, recall=1.0)
+        else:
+            rules = rules_arg(case)
+        kw = {} if case.get("max_rows_limit") is None else {"max_rows_limit": case["max_rows_limit"]}
         try:
-            linker.training.estimate_probability_two_random_records_match(rules, recall=recall)
+            linker.training.estimate_probability_two_random_records_match(rules, recall=recall, **kw)
         except ValueError as e:
             if "recall" in str(e):
                 return {"rejected": True, "prior_after": linker._settings_obj._probability_two_random_records_match, "recall": recall}
@@ -254,7 +479,7 @@ def cartesian(case):
 
 
 def boundary_recall(case):
-    """The smallest admissible recall: observed / cartesian (must be accepted); a hair below must be rejected."""
+    """The smallest admissible recall: observed / cartesian (must be accepted); a hair below (recall "below_boundary") must be rejected."""
     obs, cart = matched_pairs(case), cartesian(case)
     if obs == 0 or cart == 0:
         return 1.0
@@ -264,18 +489,24 @@ def boundary_recall(case):
 # --------------------------------------------------------------------------- expected
 def training_pairs(case):
     kind = case["kind"]
-    if kind in ("u_full", "u_seeded"):
+    if kind in ("u_full", "u_seeded", "u_sampled"):
         return admissible_pairs(case)
     if kind == "m_label_col":
-        return [(x, y) for x, y in admissible_pairs(case) if x["lab"] is not None and x["lab"] == y["lab"]]
+        lc = case.get("label_col", "lab")
+        return [(x, y) for x, y in admissible_pairs(case) if x[lc] is not None and x[lc] == y[lc]]
     if kind == "m_pairwise":
-        idx = {(r["source_dataset"], r["unique_id"]): r for r in records(case)}
-        return [(idx[tuple(a)], idx[tuple(b)]) for a, b in case["labels"]]
+        return labelled_pairs(case, case["labels"])
     return []
 
 
-def expected_freqs(case):
-    pairs = training_pairs(case)
+def labelled_pairs(case, labels):
+    """The record pairs of the label rows, one per row; rows naming a record that is not in the input join to nothing."""
+    idx = {(r["source_dataset"], r["unique_id"]): r for r in records(case)}
+    return [(idx[tuple(a)], idx[tuple(b)]) for a, b in labels if tuple(a) in idx and tuple(b) in idx]
+
+
+def expected_freqs(case, pairs=None):
+    pairs = training_pairs(case) if pairs is None else pairs
     out = {}
     for ci, c in enumerate(case["comparisons"]):
         gs = []
@@ -295,10 +526,26 @@ def full_sample(case):
 
 
 def verdict(case, r):
+    v = verdict0(case, r)
+    if v is not None and "labels_first" in case:
+        stale = verdict0({k: x for k, x in dict(case, labels=case["labels_first"]).items() if k != "labels_first"},
+                         {"levels": {n: [dict(lv, trained=lv["trained"][-1:]) for lv in lvs] for n, lvs in r["levels"].items()}})
+        why = " (it is the estimate of the labels registered FIRST under that name)" if stale is None or "after estimation" in stale else ""
+        return "after register_table(new labels, same name, overwrite=True) the second estimate_m_from_pairwise_labels is not that of the new labels" + why + ": " + v
+    return v
+
+
+def verdict0(case, r):
     kind = case["kind"]
     if kind == "prior":
         obs, cart = matched_pairs(case), cartesian(case)
         recall = r["recall"]
+        if not (0 < recall <= 1):
+            if not r["rejected"]:
+                return f"recall {recall} accepted although it is outside (0, 1]; prior set to {r['prior']}"
+            if not core.close(r["prior_after"], case["prior"], 1e-12):
+                return f"rejected call changed the prior from {case['prior']} to {r['prior_after']}"
+            return None
         inconsistent = obs > cart * recall
         near = abs(obs - cart * recall) <= 1e-9 * max(1.0, obs)
         if r["rejected"]:
@@ -317,11 +564,12 @@ def verdict(case, r):
     if kind == "u_seeded":
         if r["levels"] != r["levels_second_run"]:
             return f"seed {case['seed']}: two runs on identical inputs gave different u estimates"
-        return None
-    if kind == "u_full" and not full_sample(case):
-        return None
+        return sample_verdict(case, r["levels"]) or sample_verdict(case, r["levels_second_run"])
+    if kind == "u_sampled" or (kind == "u_full" and not full_sample(case)):
+        return sample_verdict(case, r["levels"])
     exp = expected_freqs(case)
     pairs = training_pairs(case)
+    first = expected_freqs(case, labelled_pairs(case, case["labels_first"])) if "labels_first" in case else None
     for ci, c in enumerate(case["comparisons"]):
         name = f"{c['col']}{ci}"
         nn = [l for l in c["levels"] if l["kind"] != "null"]
@@ -338,7 +586,10 @@ def verdict(case, r):
             if want is None:
                 if last != NOT_OBS:
                     return f"{name} level {lv['cvv']} never observed among {len(pairs)} training pairs but received the estimate {last}"
-                if not core.close(lv["value"], l[which], 1e-12):
+                if first is not None and first[name][lv["cvv"]] is not None and not fixed:
+                    if not core.close(lv["value"], first[name][lv["cvv"]], 1e-9):
+                        return f"model {which} of {name} level {lv['cvv']} is {lv['value']} after estimation, expected the only estimate it received, {first[name][lv['cvv']]}"
+                elif not core.close(lv["value"], l[which], 1e-12):
                     return f"{name} level {lv['cvv']} never observed, yet its {which} moved from {l[which]} to {lv['value']}"
                 continue
             if last == NOT_OBS or last is None or not core.close(last, want, 1e-9):
@@ -346,8 +597,34 @@ def verdict(case, r):
             if fixed:
                 if not core.close(lv["value"], l[which], 1e-12):
                     return f"{which} of {name} level {lv['cvv']} is fixed but moved from {l[which]} to {lv['value']}"
+            elif first is not None and first[name][lv["cvv"]] is not None and labelled_pairs(case, case["labels_first"]):
+                # two estimates of the same parameter: the model takes their median (of two numbers: the mean)
+                if not core.close(lv["value"], (want + first[name][lv["cvv"]]) / 2, 1e-9):
+                    return f"model {which} of {name} level {lv['cvv']} is {lv['value']} after estimation, expected the median of {first[name][lv['cvv']]} and {want}"
             elif not core.close(lv["value"], want, 1e-9):
                 return f"model {which} of {name} level {lv['cvv']} is {lv['value']} after estimation, expected {want}"
+    return None
+
+
+def sample_verdict(case, levels):
+    """What every sampled estimate satisfies whatever the sample was: it is the level frequency of SOME set of admissible pairs, so
+    a level that no admissible pair falls into receives no estimate, the estimates are fractions in (0, 1], and those of one
+    comparison add up to 1."""
+    exp = expected_freqs(case, admissible_pairs(case))
+    for ci, c in enumerate(case["comparisons"]):
+        name = f"{c['col']}{ci}"
+        nums = []
+        for lv in levels[name]:
+            last = lv["trained"][-1] if lv["trained"] else None
+            if last is None or last == NOT_OBS:
+                continue
+            if exp[name][lv["cvv"]] is None:
+                return f"{name} level {lv['cvv']} never observed among all {len(admissible_pairs(case))} admissible pairs but a sample of them gave the estimate {last}"
+            if not (0 < last <= 1):
+                return f"sampled u estimate of {name} level {lv['cvv']} is {last}, not a fraction in (0, 1]"
+            nums.append(last)
+        if nums and not core.close(sum(nums), 1.0, 1e-9):
+            return f"sampled u estimates of {name} add up to {sum(nums)}, not 1"
     return None
 
 
@@ -356,7 +633,7 @@ def model_request(case):
     kind = case["kind"]
     req = {"op": "estim", "gammas": [], "levels": [], "sample": None, "prior": None}
     if kind == "prior":
-        recall = boundary_recall(case) if case["recall"] == "boundary" else case["recall"]
+        recall = recall_of(case)
         req["prior"] = {"observed": core.f2b(float(matched_pairs(case))), "cartesian": core.f2b(float(cartesian(case))), "recall": core.f2b(float(recall))}
         return req
     pairs = training_pairs(case)
@@ -382,10 +659,7 @@ def compare(ctx, cases, drv):
         ctx.case({k: c[k] for k in c if k not in ("shuffle", "tag")}, len(training_pairs(c)) >= 2 or c["kind"] == "prior",
                  sample={"case": {k: c[k] for k in c if k not in ("shuffle",)}, "impl": r if isinstance(r, dict) else None} if sum(len(t) for t in c["tables"]) <= 4 else None)
         ctx.count("kind", c["kind"]); ctx.count("engine", c["engine"]); ctx.count("link_type", c["link_type"]); ctx.count("n_tables", len(c["tables"])); ctx.count("ids", c.get("ids", "global")); ctx.count("layout", c.get("layout", "tables"))
-        if c["kind"].startswith("u"):
-            ctx.count("sample_covers_all_pairs", full_sample(c) if c["kind"] == "u_full" else False); ctx.count("seed", c["seed"])
-        if c["kind"] == "prior":
-            ctx.count("recall", c["recall"])
+        count_families(ctx, c, n_adm)
         if core.impl_error(r):
             ctx.count("impl_error", r["__error__"])
             problems.append((c, f"real code raised {r['__error__']}: {r['text'][:300]}", True))
@@ -397,13 +671,15 @@ def compare(ctx, cases, drv):
             problems.append((c, v, True))
             continue
         bad = None
-        if c["kind"] == "prior":
+        if c["kind"] == "prior" and not (0 < r["recall"] <= 1):
+            pass  # the range check of the argument is outside the model (decided by the oracle alone)
+        elif c["kind"] == "prior":
             near = abs(matched_pairs(c) - cartesian(c) * r["recall"]) <= 1e-9 * max(1.0, matched_pairs(c))
             if not near and bool(m["prior"].get("rejected")) != r["rejected"]:
                 bad = f"recall guard: impl rejected={r['rejected']} model rejected={bool(m['prior'].get('rejected'))}"
             elif not r["rejected"] and "value" in m["prior"] and not core.close(core.b2f(m["prior"]["value"]), r["prior"], 1e-12):
                 bad = f"prior impl {r['prior']} model {core.b2f(m['prior']['value'])}"
-        elif c["kind"] == "u_seeded":
+        elif c["kind"] in ("u_seeded", "u_sampled"):
             pass
         elif c["kind"] != "u_full" or full_sample(c):
             if c["kind"] == "u_full" and m["sample"] is not None and core.b2f(m["sample"][0]) != 1.0:
@@ -427,6 +703,45 @@ def compare(ctx, cases, drv):
             continue
         ctx.traces_validated += 1
     return problems
+
+
+def count_families(ctx, c, n_adm):
+    kind = c["kind"]
+    ctx.count("id_type", c.get("id_type", "int"))
+    ctx.count("id_column_names", f"{c.get('uid_col', 'unique_id')}/{c.get('sd_col', 'source_dataset')}")
+    ctx.count("frame_column_order", c.get("col_order", "given"))
+    ctx.count("input_table_aliases", c.get("aliases", "sorted") if len(c["tables"]) > 1 and c.get("layout") != "concat" else "n/a")
+    ctx.count("dedupe_frame_with_source_dataset_column", bool(c.get("extra_sd_column")))
+    sizes = [len(t) for t in c["tables"]]
+    ctx.count("has_empty_table", 0 in sizes); ctx.count("has_one_row_table", 1 in sizes)
+    recs = records(c)
+    ctx.count("has_empty_string_value", any(r[x] == "" for r in recs for x in ("a", "b", "lab")))
+    ctx.count("has_all_null_column", any(all(r[x] is None for r in recs) for x in {cc["col"] for cc in c["comparisons"]}))
+    opts = c.get("opts") or {}
+    ctx.count("settings_options", "+".join(sorted(opts)) if opts else "defaults")
+    ctx.count("earlier_call_on_same_linker", c.get("pre"))
+    if kind.startswith("u"):
+        ctx.count("sample_covers_all_pairs", full_sample(c) if kind == "u_full" else False); ctx.count("seed", c["seed"])
+        mp = c["max_pairs"]
+        cls = "= #pairs" if mp == n_adm else "#pairs + 1" if mp == n_adm + 1 else "< #pairs" if mp < n_adm else "= 1e4" if mp == 1e4 else "> 1e4 (salted join)" if mp > 1e4 else "> #pairs"
+        ctx.count("max_pairs", cls + (" (float)" if isinstance(mp, float) and mp == n_adm else ""))
+    if kind == "m_label_col":
+        ctx.count("label_column", c.get("label_col", "lab"))
+    if kind == "m_pairwise":
+        ctx.count("labels_table_reregistered", "labels_first" in c)
+        ctx.count("labels_extra_columns", bool(c.get("labels_extra_cols"))); ctx.count("labels_column_order", c.get("labels_col_order", "given"))
+        ctx.count("labels_passed_as", c.get("labels_as", "name"))
+        ctx.count("labels_rows_without_record", len(c["labels"]) - len(labelled_pairs(c, c["labels"])) > 0)
+    if kind == "prior":
+        ctx.count("recall", c["recall"] if c["recall"] != "out_of_range" else f"out of range: {c['recall_value']!r}")
+        ctx.count("rule_form", c.get("rule_form", "sql")); ctx.count("creators_reused_across_dialects", bool(c.get("reuse_creators")))
+        ctx.count("same_rule_twice", len({json.dumps(x) for x in c["rules"]}) < len(c["rules"]))
+        ctx.count("max_rows_limit", "default" if c.get("max_rows_limit") is None else "given")
+        ctx.count("rule_depth", max(_depth(x) for x in c["rules"]))
+
+
+def _depth(rule):
+    return 0 if rule[0] not in ("and", "or", "not") else 1 + max(_depth(x) for x in rule[1:])
 
 
 def translation_validation(ctx, drv):
@@ -485,8 +800,14 @@ def shrink(case):
     return cur
 
 
-def classify(what):
-    for pat, cls in [("two runs on identical inputs", "seeded estimate not reproducible"), ("never observed", "unobserved level handling"), ("is fixed but", "fixed parameter moved"),
+def classify(what, case=None):
+    if case is not None and "real code raised" in what and case.get("sd_col", "source_dataset") != "source_dataset":
+        how = "one pre-concatenated frame" if case.get("layout") == "concat" else "several input frames"
+        return f"real code raised with settings source_dataset_column_name ({how})"
+    for pat, cls in [("after register_table(new labels", "estimate after re-registering the labels table is not that of the new labels"),
+                     ("a sample of them gave", "sampled estimate impossible for any sample"), ("not a fraction in", "sampled estimate impossible for any sample"),
+                     ("add up to", "sampled estimate impossible for any sample"), ("outside (0, 1]", "out-of-range recall accepted"),
+                     ("two runs on identical inputs", "seeded estimate not reproducible"), ("never observed", "unobserved level handling"), ("is fixed but", "fixed parameter moved"),
                      ("exact fraction", "estimate differs from exact pair frequency"), ("after estimation", "model value differs from estimate"),
                      ("rejected although", "consistent recall rejected"), ("accepted although", "inconsistent recall accepted"), ("prior ", "prior differs from formula"),
                      ("rejected call changed", "rejected call changed the model"), ("real code raised", "real code raised")]:
@@ -499,10 +820,17 @@ def run(ctx: core.Ctx):
     from harness.translate import tarith
 
     ctx.rule = (
-        "cases = 1-3 tables x 2-7 records (NULL rate 0-40%, label column with NULLs and singleton labels), all link types, 1-3 comparisons (exact/levenshtein/numeric, with and "
-        "without null level, level fix flags 8%), one estimator call per case: estimate_u with max_pairs >= #admissible pairs (exactness; incl. the >1e4 salted path), estimate_u "
-        "with a small sample and a seed run twice (reproducibility; seeds incl. 0), estimate_m_from_label_column, estimate_m_from_pairwise_labels (either orientation, duplicate rows), "
-        "estimate_probability_two_random_records_match (1-3 overlapping rules, recall in {1,.9,.5,.1,.01, exactly observed/cartesian}); duckdb+sqlite. "
+        "cases = 1-3 tables x 1-7 records (NULL rate 0-40%, 10%: one column (nearly) all NULL; 15%: '' among the values; label column with NULLs, singleton and '' labels; "
+        "8%: an empty table), integer or string ids (global / restarting per table), several frames (aliases sorted / reversed / left to Splink) or ONE pre-concatenated frame, "
+        "frame columns in given or shuffled order, non-default unique_id / source_dataset column names, dedupe frame carrying a source_dataset column, all link types, "
+        "1-3 comparisons (exact/levenshtein/numeric, with and without null level, level fix flags 8%), 40%: settings that must not matter (retain_*, additional_columns_to_retain, "
+        "prediction blocking rules), 25%: an earlier accepted/rejected call of another estimator on the same linker; one estimator per case: estimate_u with max_pairs >= #admissible "
+        "pairs (exactness; = #pairs int/float, +1, 1e4, 10001, 2e4, 1e6, 1e9 incl. the salted path), estimate_u with a small sample and a seed run repeatedly (reproducibility; seeds "
+        "incl. 0) or without a seed on both engines (estimate must be the frequency of SOME sample), estimate_m_from_label_column (label column lab / a / c), "
+        "estimate_m_from_pairwise_labels (either orientation, duplicate rows, rows about absent records, extra columns, shuffled columns, table name or SplinkDataFrame, 25%: labels "
+        "re-registered under the same name and estimated again), estimate_probability_two_random_records_match (1-4 overlapping rules of depth <= 2 incl. the same rule twice, as SQL / "
+        "creators / dicts / one bare rule, creators reused across dialects, max_rows_limit given, recall in {1.0, 1, .9,.5,.1,.01, exactly observed/cartesian, a hair below it, out of "
+        "(0,1]: 0, -0.0, <0, >1}); duckdb+sqlite. "
         "+ 400 translation-validation inputs for the generated sampling arithmetic. non-trivial = >= 2 training pairs (or a prior case); distinct = hash of the case."
     )
     ctx.assumptions = [
@@ -531,15 +859,15 @@ def run(ctx: core.Ctx):
     broken = [(c, w) for c, w, conc in problems if not conc]
     reported = set()
     for c, w in concrete:
-        cls = classify(w)
+        cls = classify(w, c)
         if cls in reported or len(reported) >= 4:
             continue
         reported.add(cls)
         small = shrink(c) if not c.get("tag", "").startswith("corpus") else c
         rr = run_impl_safe(small)
         what = (verdict(small, rr) if "__error__" not in rr else f"real code raised {rr['__error__']}: {rr['text'][:300]}") or w
-        ctx.violation("real output violates C04: " + classify(what), {"case": small, "observed": rr, "detail": what}, kind="concrete",
-                      match_info={"failure": classify(what), "kind": small["kind"], "seed": small.get("seed")})
+        ctx.violation("real output violates C04: " + classify(what, small), {"case": small, "observed": rr, "detail": what}, kind="concrete",
+                      match_info={"failure": classify(what, small), "kind": small["kind"], "seed": small.get("seed")})
     if not concrete:
         if broken:
             c, w = broken[0]
